@@ -16,8 +16,9 @@ B_PRO_A64 = ('dirty masks of x0-x30 and v0-v31 symbolic (all 2^32 values); local
              'preserved FP, calls, varargs, BTI attributes; stack-argument base register SP or FP; entry SP symbolic and 16-byte aligned; entry values of all registers symbolic')
 def HA(fn, what, known=None, unwind=33, mem=6, timeout=1200, tiers=('quick', 'thorough')):
     A64P = '_ZN6asmjit5v1_213a6410EmitHelper11emit_prologERKNS0_9FuncFrameE'; A64E = '_ZN6asmjit5v1_213a6410EmitHelper11emit_epilogERKNS0_9FuncFrameE'; PEI = '_ZN6asmjit5v1_213a6416PrologEpilogInfo4initERKNS0_9FuncFrameE'
-    lib = unwind // 2 + 1   # library loops: at most 16 register pairs / 16 saved registers per group for the built-in conventions (light-call: 32)
-    us = ','.join('%s.%d:%d' % (f, i, lib) for f in (A64P, A64E) for i in range(4)) + ',%s.0:%d,%s.1:%d' % (PEI, lib, PEI, lib)
+    # library loops: pair loops (AAPCS64: at most 7 GP and 4 vector pairs; light-call: 14 and 14), mask iteration in PrologEpilogInfo::init (13 / 28 registers)
+    pairs, regs = (4, 6) if ('small' in fn or 'C07C' in fn or 'C07D' in fn) else (8, 14) if ('light' not in fn and 'C07E' not in fn) else (15, 29)
+    us = ','.join('%s.%d:%d' % (f, i, pairs) for f in (A64P, A64E) for i in range(4)) + ',%s.0:%d,%s.1:%d' % (PEI, regs, PEI, regs)
     return Harness('prolog_a64', fn, unwind=unwind, unwindset=us, bounds=what + '; ' + B_PRO_A64, known=known, mem_gb=mem, timeout=timeout, tiers=tiers)
 B_FRAME = ('every convention id valid for the arch (real CallConv::init); dirty masks of all 4 groups: all 2^32 values each; local and call stack size 0..65536; '
            'local and call alignment 1,2,..,64; all user attributes (preserved FP, calls, AVX, AVX-512, cleanup flags, IBT, varargs); optional user-chosen '
@@ -41,12 +42,14 @@ HARNESSES = [
     HP('h_prolog_x64_kf_C07B', 'region of known finding C07B (user-defined convention preserving k registers)', gp=8, vec=17, mem=8, timeout=2400, known='C07B', tiers=('thorough',)),
     HP('h_prolog_x64_light3', 'x86-64 light-call 3 (all GP and most xmm registers callee-saved)', gp=17, vec=17, mem=8, timeout=2400, tiers=('thorough',)),
     HP('h_prolog_x86_light2', 'x86-32 light-call 2', gp=9, vec=9, mem=8, timeout=2400, tiers=('thorough',)),
-    HA('h_prolog_a64_aapcs', 'AAPCS64 (Linux)'),
-    HA('h_prolog_a64_apple', 'Apple arm64'),
-    HA('h_prolog_a64_kf_C07C', 'AAPCS64, region of known finding C07C (alignment 32 or 64)', known='C07C'),
-    HA('h_prolog_a64_kf_C07D', 'AAPCS64, region of known finding C07D (preserved FP)', known='C07D'),
-    HA('h_prolog_a64_light', 'AArch64 light-call 2 (x4-x30 and v4-v31 callee-saved, 16-byte vector slots)', unwind=33, mem=8, timeout=2400, tiers=('thorough',)),
-    HA('h_prolog_a64_kf_C07E', 'AArch64 light-call 2, region of known finding C07E', known='C07E', unwind=33, mem=8, timeout=2400, tiers=('thorough',)),
+    HA('h_prolog_a64_aapcs_small', 'AAPCS64 (Linux), quick slice: dirty registers within x19-x21, x29, x30, d8-d10 (plus any caller-saved register)'),
+    HA('h_prolog_a64_apple_small', 'Apple arm64, quick slice: dirty registers within x19-x21, x29, x30, d8-d10 (plus any caller-saved register)'),
+    HA('h_prolog_a64_kf_C07C', 'AAPCS64 quick slice, region of known finding C07C (alignment 32 or 64)', known='C07C'),
+    HA('h_prolog_a64_kf_C07D', 'AAPCS64 quick slice, region of known finding C07D (preserved FP)', known='C07D'),
+    HA('h_prolog_a64_aapcs', 'AAPCS64 (Linux)', mem=8, timeout=3000, tiers=('thorough',)),
+    HA('h_prolog_a64_apple', 'Apple arm64', mem=8, timeout=3000, tiers=('thorough',)),
+    HA('h_prolog_a64_light', 'AArch64 light-call 2 (x4-x30 and v4-v31 callee-saved, 16-byte vector slots)', mem=8, timeout=3000, tiers=('thorough',)),
+    HA('h_prolog_a64_kf_C07E', 'AArch64 light-call 2, region of known finding C07E', known='C07E', mem=8, timeout=3000, tiers=('thorough',)),
 ]
 EXPLANATION = 'bounded symbolic execution (CBMC) of the real FuncFrame::init/finalize and of the real x86/a64 emit_prolog/emit_epilog driving a model machine defined in the harness'
 OUTSIDE = ['BaseRAPass::update_stack_frame hand-over (needs a Compiler run)', 'local/call stack sizes above 64 KiB']
